@@ -1,12 +1,14 @@
 """C14 - variational predictive q(f) and KL(q(u) || p(u)) equal their closed forms for every strategy.
 
 Spec: VariationalQF.tla.  TLC (1) evaluates the denotation of the property and the code-shaped expressions exactly over
-rationals on integer instances and checks that they agree, (2) checks the multitask mixing algebra, (3) enumerates the
-strategy x distribution x batch-shape lattice, (4) checks the training-mode call protocol and enumerates its histories.
+rationals on integer instances and checks that they agree, (2) checks the multitask mixing algebra and the KL reduction for every
+position of the latent / task dimension in the batch shape (and rejects the reductions over "the last dimension"), (3) enumerates the
+strategy x distribution x batch-shape (x batch layout of the multitask wrappers) lattice, (4) checks the training-mode call protocol
+and enumerates its histories.
 Replay: (a) the rational instances through the real strategies against TLC's exact values, (b) every lattice cell on seeded
 RBF / Matern models against the closed form on the model's own prior, (c) training-mode histories with optimizer steps,
-(d) whitened against unwhitened strategy on the same q(u), (e) the multitask wrappers on a stub base strategy against
-TLC's exact mixtures."""
+(d) whitened against unwhitened strategy on the same q(u), (e) the multitask wrappers on a stub base strategy (latent q(f), q(u), p(u)
+with the instance's batch layout) against TLC's exact mixtures, KL sums and shapes."""
 import itertools
 import math
 import os
@@ -24,17 +26,28 @@ DIST_OF = dict(chol="Cholesky", mf="MeanField", delta="Delta", nat="Natural", tr
 DIAGNOSED = ("C14/BatchDecoupledVariationalStrategy/kl/offset-half-k-log-2pi",
              "C14/BatchDecoupledVariationalStrategy/input-batch-equals-inducing-batch/collapsed",
              "C14/CiqVariationalStrategy/Natural/eval-cov/diagonal-only", "C14/CiqVariationalStrategy/Natural/kl/zero")
+IMT = "IndependentMultitaskVariationalStrategy"
+# deviations of the wrappers when the latent / task dimension is not the last batch dimension (reproduced stand-alone: findings/C14/repro_dims.py)
+SIG_IMT_KL = "C14/IndependentMultitaskVariationalStrategy/kl/summed-over-last-dim-instead-of-task_dim"
+SIG_IMT_SEL = "C14/IndependentMultitaskVariationalStrategy/task-indices/task_dim-not-last"
+SIG_LAZY_PERMUTE = "C14/%s/all-tasks/batched-kernel/latent-dim-not-last"
+DIAGNOSED += (SIG_IMT_KL, SIG_IMT_SEL, SIG_LAZY_PERMUTE % "LMCVariationalStrategy", SIG_LAZY_PERMUTE % IMT)
 RT, AT = 1e-7, 1e-9
 CIQ_RT, CIQ_AT = 2e-6, 1e-8          # contour integral quadrature is iterative; tightened settings, see ciq_settings()
 
 
-def write_mc(workdir, name, part, instances=(), invariants=(), maxhist=5, clear=True):
+INTENDED = dict(lmckl="named", imtkl="named", imtmask="to")       # VariationalQF.tla Variant: every reduction over the NAMED dimension
+
+
+def write_mc(workdir, name, part, instances=(), invariants=(), maxhist=5, clear=True, variant=None):
     os.makedirs(workdir, exist_ok=True)
     mod = "MC_VariationalQF_" + name
     with open(os.path.join(workdir, mod + ".tla"), "w") as f:
-        f.write("---- MODULE %s ----\nEXTENDS VariationalQF\nInstDef == {%s}\n====\n" % (mod, ",\n  ".join(tla(i) for i in instances)))
+        f.write("---- MODULE %s ----\nEXTENDS VariationalQF\nInstDef == {%s}\nVariantDef == %s\n====\n" % (
+            mod, ",\n  ".join(tla(i) for i in instances), tla(dict(INTENDED, **(variant or {})))))
     cfg = os.path.join(workdir, mod + ".cfg")
-    tlc.write_cfg(cfg, spec="Spec", constants={"Part": part, "Instances": "<- InstDef", "MaxHist": maxhist, "ClearOnTrainCall": clear},
+    tlc.write_cfg(cfg, spec="Spec", constants={"Part": part, "Instances": "<- InstDef", "MaxHist": maxhist, "ClearOnTrainCall": clear,
+                                               "Variant": "<- VariantDef"},
                   invariants=list(invariants))
     return os.path.join(workdir, mod + ".tla"), cfg
 
@@ -118,17 +131,46 @@ def gen_pairs(rnd, n_std, n_orth):
     return pairs
 
 
+# batch layouts of the wrapped strategy (VariationalQF.tla part "mix"): (template, latent dimension); Q: the latent / task
+# dimension, the other letters ordinary batch dimensions in front of / behind it
+MIX_LAYOUTS = [(("Q",), -1), (("P", "Q"), -1), (("Q", "B"), -2), (("P", "Q", "B"), -2), (("Q", "B", "C"), -3), (("P", "R", "Q"), -1)]
+
+
+def prod(xs):
+    r = 1
+    for x in xs:
+        r *= x
+    return r
+
+
 def gen_mix(rnd, count):
+    """integer instances for the multitask wrappers: every layout x {all sizes equal (a reduction over the wrong dimension keeps the
+    shape), all other sizes different from Q (it changes the shape), mixed}"""
     out = []
     for t in range(count):
-        Q, N, T = rnd.choice([1, 2, 2, 3]), rnd.choice([1, 2, 3]), rnd.choice([2, 3])
+        tmpl, ld = MIX_LAYOUTS[t % len(MIX_LAYOUTS)]
+        mode = ("eq", "ne", "mixed")[(t // len(MIX_LAYOUTS)) % 3]
+        Q = rnd.choice([2, 3]) if len(tmpl) > 1 else rnd.choice([1, 2, 2, 3])
+        other = 5 - Q if Q > 1 else 2
+        shape = []
+        for n, d in enumerate(tmpl):
+            if d == "Q":
+                shape.append(Q)
+            elif mode == "eq" or (mode == "mixed" and n % 2 == 0 and len(tmpl) == 3):
+                shape.append(Q)
+            else:
+                shape.append(other)
+        B = prod(shape)
+        N, T = rnd.choice([1, 2, 3] if B <= 9 else [1, 2]), rnd.choice([2, 3])
         covs = []
-        for _ in range(Q):
+        for _ in range(B):
             G = [[rnd.randint(-2, 2) for _ in range(2)] for _ in range(N)]
             covs.append([[sum(a * b for a, b in zip(G[r], G[s])) + (1 if r == s else 0) for s in range(N)] for r in range(N)])
-        out.append(dict(id=[t], mean=[[rnd.randint(-3, 3) for _ in range(N)] for _ in range(Q)], cov=covs,
-                        A=[[rnd.randint(-2, 2) for _ in range(T)] for _ in range(Q)], ti=[rnd.randint(1, T) for _ in range(N)],
-                        tj=[rnd.randint(1, Q) for _ in range(N)]))
+        ax = len(shape) + ld
+        out.append(dict(id=[t], shape=shape, ld=ld, td=(ax if (t // 2) % 2 else ld),
+                        mean=[[rnd.randint(-3, 3) for _ in range(N)] for _ in range(B)], cov=covs,
+                        A=[[rnd.randint(-2, 2) for _ in range(T)] for _ in range(B)], um=[[rnd.randint(-3, 3) for _ in range(2)] for _ in range(B)],
+                        ti=[rnd.randint(1, T) for _ in range(N)], tj=[rnd.randint(1, Q) for _ in range(N)]))
     return out
 
 
@@ -187,6 +229,11 @@ class Cell:
         ok, why = core.close(got.detach().expand(full), want.expand(full), rt, at)
         return self.add(what, ok, why, sig)
 
+    def same(self, what, got, want, rt=RT, at=AT, sig=None):
+        """like close, but the shapes must be identical (the spec states the shape)"""
+        ok, why = core.close(got.detach(), want, rt, at)
+        return self.add(what, ok, why, sig)
+
 
 def tolerance(strat, cfg=None):
     if cfg is not None and cfg.get("x_at_nodes") is not None:
@@ -221,7 +268,7 @@ def call_model(torch, model, X, mode, strat, want_kl=True, set_mode=True, **kw):
     return dict(mean=mean, cov=cov, var=var, kl=kl)
 
 
-def compare_output(torch, cell, tag, strat, dist, got, ref, mode, k_ind, multitask=False, kl=True, cfg=None, alts=None):
+def compare_output(torch, cell, tag, strat, dist, got, ref, mode, k_ind, multitask=False, kl=True, cfg=None, alts=None, sig_for=None):
     """compare a model output with the closed form.  alts: callable giving the closed form under the other admissible jitter
     placements (only consulted when a comparison fails; a match there is MODEL-DRIFT).  The deviations of the current code
     that were reproduced stand-alone get their own diagnosed signatures so that any other failure of the same cell stays visible."""
@@ -254,13 +301,14 @@ def compare_output(torch, cell, tag, strat, dist, got, ref, mode, k_ind, multita
                 return True
         return False
 
-    cell.close("%s-mean@%s" % (mode, tag), got["mean"], ref["mean"], rt, at)
+    sig_for = sig_for or (lambda what: None)
+    cell.close("%s-mean@%s" % (mode, tag), got["mean"], ref["mean"], rt, at, sig_for("mean"))
     ciq_ngd = strat == "CiqVariationalStrategy" and dist == "Natural"
     if mode == "eval":
         if not matches(got["cov"], ref["cov"], rt, at) and admissible("eval-cov", got["cov"], lambda r: r["cov"], rt, at):
             pass
         else:
-            sig = None
+            sig = sig_for("cov")
             if ciq_ngd and tuple(got["cov"].shape) == tuple(ref["cov"].shape):
                 off = got["cov"] - torch.diag_embed(got["cov"].diagonal(dim1=-1, dim2=-2))
                 okd = matches(got["cov"].diagonal(dim1=-1, dim2=-2), ref["cov"].diagonal(dim1=-1, dim2=-2), rt, at)
@@ -271,13 +319,14 @@ def compare_output(torch, cell, tag, strat, dist, got, ref, mode, k_ind, multita
         if not matches(got["var"], variance_of(ref), rt, at) and admissible("train-var", got["var"], variance_of, rt, at):
             pass
         else:
-            cell.close("train-var@%s" % tag, got["var"], variance_of(ref), rt, at)
+            cell.close("train-var@%s" % tag, got["var"], variance_of(ref), rt, at, sig_for("var"))
     if kl:
         want = ref["kl"]
         if not matches(got["kl"], want, rk, ak) and admissible(mode + "-kl", got["kl"], lambda r: r["kl"], rk, ak):
             return
         sig = None
         if not matches(got["kl"], want, rk, ak):
+            sig = sig_for("kl")
             if strat == "BatchDecoupledVariationalStrategy" and matches(got["kl"], want + 0.5 * k_ind * math.log(2 * math.pi), rk, ak):
                 sig = base.rsplit("/", 1)[0] + "/kl/offset-half-k-log-2pi"
             if ciq_ngd and float(got["kl"].abs().max()) == 0.0:
@@ -536,7 +585,11 @@ def seeded_setup(torch, cfg):
         Z = None
         X = gen_points(torch, g, bx, N, 1, -0.9, 0.9, 0.1)
     else:
-        Z = gen_points(torch, g, bz + ((2,) if strat == "BatchDecoupledVariationalStrategy" else ()), M, d)
+        if strat == "BatchDecoupledVariationalStrategy" and (cfg.get("mvd") or -1) != -1:
+            # mean / variance dimension in front of the parameters' batch dimension(s): [2, *bp, M, d]
+            Z = gen_points(torch, g, (2,) + (bp if bz else (1,) * len(bp)), M, d).expand(2, *bp, M, d).clone()
+        else:
+            Z = gen_points(torch, g, bz + ((2,) if strat == "BatchDecoupledVariationalStrategy" else ()), M, d)
         X = gen_points(torch, g, bx, N, d)
         if strat == "OrthogonallyDecoupledVariationalStrategy":
             Zc = gen_points(torch, g, (), M, d)
@@ -565,7 +618,7 @@ def seeded_setup(torch, cfg):
 
 
 def cell_desc(cfg):
-    extra = "".join(" %s=%s" % (q, cfg[q]) for q in ("variant", "base", "Q", "T", "task_indices", "x_is_z", "x_at_nodes", "jitter") if cfg.get(q) is not None)
+    extra = "".join(" %s=%s" % (q, cfg[q]) for q in ("variant", "mvd", "kb", "base", "Q", "T", "ld", "given", "task_indices", "x_is_z", "x_at_nodes", "jitter") if cfg.get(q) is not None)
     return "%s x %s inducing%s params%s inputs%s kernel=%s%s seed=%d" % (cfg["strat"], cfg["dist"], list(cfg["bz"]), list(cfg["bp"]), list(cfg["bx"]),
                                                                          cfg["kernel"], extra, cfg["seed"])
 
@@ -579,13 +632,66 @@ def setup_retry(torch, cfg):
     raise core.Machinery("no well conditioned instance for %r" % (cfg,))
 
 
+def kl_only(torch, cell, tag, cfg, model, X, mode, kl, k_ind, sig_for=None, cur=None):
+    """compare a kl_divergence() value alone (the q(f) part of the comparison is fed with the closed form itself)"""
+    from checks import c14_models as CM
+    strat, dist = cfg["strat"], cfg["dist"]
+    ref = CM.oracle(cfg, model, X, mode)
+    got = dict(mean=ref["mean"], cov=ref["cov"], var=ref["cov"].diagonal(dim1=-1, dim2=-2), kl=kl)
+    if cur is not None:
+        cur.update(got=got, ref=ref)
+    sub = Cell(cell.sigbase, cell.desc, cell.case, cell.keybase)
+    compare_output(torch, sub, tag, strat, dist, got, ref, mode, k_ind, False, cfg=cfg, alts=alt_oracles(cfg, model, X, mode), sig_for=sig_for)
+    out = [r for r in sub.results if "-kl" in r["key"][-1]]
+    for r in out:
+        r.pop("sample", None)
+    return out
+
+
+def drop_dim(shape, d):
+    shape = list(shape)
+    if shape:
+        del shape[d]
+    return shape
+
+
+def wrapper_signatures(torch, cfg, got_ref):
+    """stable signatures for the reproduced deviations of the multitask wrappers; anything else keeps the cell's own signature.
+    got_ref: callable -> (got, ref) of the comparison under way"""
+    strat = cfg["strat"]
+    notlast = strat in WRAPPERS and cfg.get("ld", -1) != -1
+    ti = cfg.get("task_indices") is not None
+
+    def sig_for(what):
+        if not notlast:
+            return None
+        if what == "kl":
+            got, ref = got_ref()
+            if strat == IMT and ref.get("latent_kl") is not None:
+                wrong = ref["latent_kl"].sum(-1)
+                try:
+                    full = torch.broadcast_shapes(got["kl"].shape, wrong.shape)
+                except RuntimeError:
+                    return None
+                if core.close(got["kl"].expand(full), wrong.expand(full), RT, AT)[0]:
+                    return SIG_IMT_KL
+            return None
+        if ti:
+            return SIG_IMT_SEL if strat == IMT else None
+        if cfg.get("variant") == "batchkernel" and what in ("cov", "var", "raises"):
+            return SIG_LAZY_PERMUTE % strat
+        return None
+    return sig_for
+
+
 def run_seeded(cfg):
     torch = core.setup_torch()
     from checks import c14_models as CM
     strat, dist = cfg["strat"], cfg["dist"]
     cell = Cell("C14/%s/%s" % (strat, dist), cell_desc(cfg), dict(kind="seed", cfg=cfg),
                 ["seed", strat, dist, list(cfg["bz"]), list(cfg["bp"]), list(cfg["bx"]), cfg["kernel"], cfg.get("variant"), cfg.get("base"),
-                 cfg.get("task_indices") is not None, cfg.get("x_is_z"), cfg.get("x_at_nodes") is not None, cfg.get("jitter")])
+                 cfg.get("task_indices") is not None, cfg.get("x_is_z"), cfg.get("x_at_nodes") is not None, cfg.get("jitter"), cfg.get("ld"), cfg.get("given"),
+                 cfg.get("Q"), cfg.get("T"), cfg.get("kb") if cfg.get("variant") == "batchkernel" else None, cfg.get("mvd")])
     ok, r = core.guarded(lambda: setup_retry(torch, cfg))
     if not ok:
         if "Machinery" in str(r):
@@ -596,18 +702,59 @@ def run_seeded(cfg):
     kw = {}
     if cfg.get("task_indices") is not None:
         kw["task_indices"] = torch.tensor(cfg["task_indices"])
-    multitask = strat in ("LMCVariationalStrategy", "IndependentMultitaskVariationalStrategy") and cfg.get("task_indices") is None
+    wrapper = strat in WRAPPERS
+    multitask = wrapper and cfg.get("task_indices") is None
     k_ind = CM.param_module(cfg2, model).num_inducing_points
+    cur = {}
+    sig_for = wrapper_signatures(torch, cfg2, lambda: (cur["got"], cur["ref"]))
     for mode in ("eval", "train"):
         ok, got = core.guarded(lambda: call_model(torch, model, X, mode, strat, **kw))
         if not ok:
-            cell.add(mode + "-raises", False, str(got))
+            msg = str(got)
+            sig = None
+            if "not broadcastable with kernel of batch_shape" in msg or "Attempting to broadcast a dimension" in msg or cfg.get("task_indices") is not None:
+                sig = sig_for("raises")
+            cell.add(mode + "-raises", False, msg, sig)
+            if wrapper:
+                # kl_divergence() does not depend on the call that failed: it is still compared
+                ok, kl = core.guarded(lambda: model.variational_strategy.kl_divergence().detach().clone())
+                if not ok:
+                    cell.add(mode + "-kl-raises", False, str(kl))
+                    continue
+                cell.results.extend(kl_only(torch, cell, "seeded", cfg2, model, X, mode, kl, k_ind, sig_for=sig_for, cur=cur))
+                kl_shape(torch, cell, cfg2, mode, kl, sig=(sig_for("kl") if cfg2.get("ld", -1) != -1 else None))
             continue
         ref = CM.oracle(cfg2, model, X, mode)
+        cur.update(got=got, ref=ref)
         if collapsed_input_batch(torch, cell, cfg2, model, X, got, mode):
             break
-        compare_output(torch, cell, "seeded", strat, dist, got, ref, mode, k_ind, multitask, cfg=cfg2, alts=alt_oracles(cfg2, model, X, mode))
+        compare_output(torch, cell, "seeded", strat, dist, got, ref, mode, k_ind, multitask, cfg=cfg2, alts=alt_oracles(cfg2, model, X, mode), sig_for=sig_for)
+        if wrapper:
+            kl_shape(torch, cell, cfg2, mode, got["kl"], sig=(sig_for("kl") if cfg2.get("ld", -1) != -1 else None))
     return cell.results
+
+
+def kl_shape(torch, cell, cfg, mode, kl, sig=None):
+    """the batch shape of kl_divergence() of a wrapper: one value per entry of the batch dimensions other than the latent / task dimension
+    (VariationalQF.tla LayoutInfo.kl).  A whitened base strategy has p(e) = N(0, I) with the parameters' batch shape; an unwhitened one
+    has p(u) on the inducing points (batch dimensions of the inducing points and the kernel; in training mode after a call the
+    memoised joint prior also carries those of the inputs)"""
+    if cfg.get("klshape") is None:
+        return
+    ld = cfg.get("ld", -1)
+    shapes = [tuple(cfg["klshape"])]
+    want = [shapes[0]]
+    if cfg.get("base") == "UnwhitenedVariationalStrategy":
+        if cfg["bz"]:
+            shapes.append(tuple(drop_dim(cfg["bz"], ld)))
+        if cfg.get("variant") == "batchkernel":
+            shapes.append(tuple(drop_dim(cfg["kb"], ld)))
+        want = [tuple(torch.broadcast_shapes(*shapes))]
+        if mode == "train" and cfg["bx"]:
+            # which of the two priors is memoised at this point is a matter of call-site bookkeeping (assumption 1): both shapes stand for the same values
+            want.append(tuple(torch.broadcast_shapes(*shapes, tuple(drop_dim(cfg["bx"], ld)))))
+    cell.add("%s-kl-shape" % mode, tuple(kl.shape) in want, "kl_divergence() has shape %s, the parameters' batch shape %s without its dimension %d is %s" % (
+        tuple(kl.shape), list(cfg["bp"]), ld, " or ".join(map(str, want))), sig)
 
 
 def opt_step(torch, model, g, dist):
@@ -731,60 +878,94 @@ def run_same_qu(cfg):
 # ---------------------------------------------------------------------------------------------------------------------
 # (e) the multitask wrappers on a stub base strategy: exact decoding of the mixture
 def run_mix(case):
+    """the wrappers on a stub base strategy whose batch shape, latent q(f) and q(u) / p(u) are the instance's; every expectation
+    (values AND shapes) is TLC's exact evaluation of the denotation"""
     torch = core.setup_torch()
     import types
     import gpytorch
     from gpytorch.distributions import MultivariateNormal
     D = torch.float64
     inst, out = case["inst"], case["out"]
-    Q, N, T = len(inst["mean"]), len(inst["mean"][0]), len(inst["A"][0])
-    mean = torch.tensor(inst["mean"], dtype=D)
-    cov = torch.tensor(inst["cov"], dtype=D)
+    shape, ld, td = list(inst["shape"]), inst["ld"], inst["td"]
+    Q, N, T, K = shape[ld], len(inst["mean"][0]), len(inst["A"][0]), len(inst["um"][0])
+    oshape = list(out["oshape"])
+    notlast = ld != -1
+    mean = torch.tensor(inst["mean"], dtype=D).reshape(*shape, N)
+    cov = torch.tensor(inst["cov"], dtype=D).reshape(*shape, N, N)
+    um = torch.tensor(inst["um"], dtype=D).reshape(*shape, K)
+    A = torch.tensor(inst["A"], dtype=D).reshape(*shape, T)
+    eyeK = torch.eye(K, dtype=D).expand(*shape, K, K)
+
+    def want(name, *tail):
+        return torch.tensor(out[name], dtype=D).reshape(tuple(oshape) + tuple(tail))
+    want_kl = 0.5 * want("kl2")                                            # KL(N(um, I) || N(0, I)) = |um|^2 / 2, summed over the latents
+    latent_kl = 0.5 * (um * um).sum(-1)
 
     class Stub(gpytorch.Module):
         def __init__(self):
             super().__init__()
-            self._variational_distribution = types.SimpleNamespace(batch_shape=torch.Size([Q]))
+            self._variational_distribution = types.SimpleNamespace(batch_shape=torch.Size(shape))
             self.inducing_points = torch.zeros(1, 1, dtype=D)
+            self.variational_distribution = MultivariateNormal(um, eyeK)
+            self.prior_distribution = MultivariateNormal(torch.zeros_like(um), eyeK)
 
         def forward(self, x, prior=False, **kw):
             return MultivariateNormal(mean, cov)
     X = torch.zeros(N, 1, dtype=D)
     res = []
     jv = 0.5
-    cell = Cell("C14/LMCVariationalStrategy/mix", "mix instance %s (Q=%d N=%d T=%d)" % (inst["id"], Q, N, T), case, ["mix", inst["id"]])
-    lmc = gpytorch.variational.LMCVariationalStrategy(Stub(), num_tasks=T, num_latents=Q, latent_dim=-1, jitter_val=jv).to(D)
-    with torch.no_grad():
-        lmc.lmc_coefficients.copy_(torch.tensor(inst["A"], dtype=D))
-    ok, o = core.guarded(lambda: lmc(X))
+    lay = "shape=%s latent_dim=%d" % (shape, ld)
+    cell = Cell("C14/LMCVariationalStrategy/mix", "mix instance %s (%s N=%d T=%d)" % (inst["id"], lay, N, T), case, ["mix", inst["id"]])
+    ok, lmc = core.guarded(lambda: gpytorch.variational.LMCVariationalStrategy(Stub(), num_tasks=T, num_latents=Q, latent_dim=ld, jitter_val=jv).to(D))
     if not ok:
-        cell.add("lmc-raises", False, str(o))
+        cell.add("lmc-raises", False, str(lmc))
     else:
-        cell.close("all-tasks-mean", o.mean, torch.tensor(out["lmean"], dtype=D), 1e-12, 1e-12)
-        lc = torch.tensor(out["lcov"], dtype=D)
-        cell.close("all-tasks-cov", o.covariance_matrix, lc if core.close(o.covariance_matrix, lc, 1e-12, 1e-12)[0] else lc + jv * torch.eye(N * T, dtype=D), 1e-12, 1e-12)
-    ok, o = core.guarded(lambda: lmc(X, task_indices=torch.tensor([t - 1 for t in inst["ti"]])))
-    if not ok:
-        cell.add("lmc-raises", False, str(o))
-    else:
-        cell.close("one-task-mean", o.mean, torch.tensor(out["smean"], dtype=D), 1e-12, 1e-12)
-        sc = torch.tensor(out["scov"], dtype=D)
-        cell.close("one-task-cov", o.covariance_matrix, sc if core.close(o.covariance_matrix, sc, 1e-12, 1e-12)[0] else sc + jv * torch.eye(N, dtype=D), 1e-12, 1e-12)
+        with torch.no_grad():
+            lmc.lmc_coefficients.copy_(A)
+
+        def jit_ok(got, w):
+            # jitter_val on the diagonal of the mixture is an admissible placement (StratInfo): with or without
+            return w if core.close(got, w, 1e-12, 1e-12)[0] else w + jv * torch.eye(w.shape[-1], dtype=D)
+        ok, o = core.guarded(lambda: lmc(X))
+        if not ok:
+            cell.add("lmc-raises", False, str(o))
+        else:
+            cell.same("all-tasks-mean", o.mean, want("lmean", N, T), 1e-12, 1e-12)
+            cell.same("all-tasks-cov", o.covariance_matrix, jit_ok(o.covariance_matrix, want("lcov", N * T, N * T)), 1e-12, 1e-12)
+        ok, o = core.guarded(lambda: lmc(X, task_indices=torch.tensor([t - 1 for t in inst["ti"]])))
+        if not ok:
+            cell.add("lmc-raises", False, str(o))
+        else:
+            cell.same("one-task-mean", o.mean, want("smean", N), 1e-12, 1e-12)
+            cell.same("one-task-cov", o.covariance_matrix, jit_ok(o.covariance_matrix, want("scov", N, N)), 1e-12, 1e-12)
+        ok, kl = core.guarded(lambda: lmc.kl_divergence())
+        if not ok:
+            cell.add("kl-raises", False, str(kl))
+        else:
+            cell.same("kl", kl, want_kl, 1e-12, 1e-12)
     res.extend(cell.results)
-    cell = Cell("C14/IndependentMultitaskVariationalStrategy/mix", "mix instance %s (tasks=%d N=%d)" % (inst["id"], Q, N), case, ["imix", inst["id"]])
-    imt = gpytorch.variational.IndependentMultitaskVariationalStrategy(Stub(), num_tasks=Q, task_dim=-1)
+    cell = Cell("C14/IndependentMultitaskVariationalStrategy/mix", "mix instance %s (%s task_dim=%d N=%d)" % (inst["id"], lay, td, N), case, ["imix", inst["id"]])
+    imt = gpytorch.variational.IndependentMultitaskVariationalStrategy(Stub(), num_tasks=Q, task_dim=td)
     ok, o = core.guarded(lambda: imt(X))
     if not ok:
         cell.add("imt-raises", False, str(o))
     else:
-        cell.close("all-tasks-mean", o.mean, torch.tensor(out["imean"], dtype=D), 1e-12, 1e-12)
-        cell.close("all-tasks-cov", o.covariance_matrix, torch.tensor(out["icov"], dtype=D), 1e-12, 1e-12)
-    ok, o = core.guarded(lambda: imt(X, task_indices=torch.tensor([t - 1 for t in inst["tj"]])))
+        cell.same("all-tasks-mean", o.mean, want("imean", N, Q), 1e-12, 1e-12)
+        cell.same("all-tasks-cov", o.covariance_matrix, want("icov", N * Q, N * Q), 1e-12, 1e-12)
+    if td < 0:                                          # one task per input is documented for a negative task_dim only
+        sig = SIG_IMT_SEL if notlast else None
+        ok, o = core.guarded(lambda: imt(X, task_indices=torch.tensor([t - 1 for t in inst["tj"]])))
+        if not ok:
+            cell.add("imt-raises", False, str(o), sig)
+        else:
+            cell.same("one-task-mean", o.mean, want("ismean", N), 1e-12, 1e-12, sig)
+            cell.same("one-task-cov", o.covariance_matrix, want("iscov", N, N), 1e-12, 1e-12, sig)
+    ok, kl = core.guarded(lambda: imt.kl_divergence())
     if not ok:
-        cell.add("imt-raises", False, str(o))
+        cell.add("kl-raises", False, str(kl))
     else:
-        cell.close("one-task-mean", o.mean, torch.tensor(out["ismean"], dtype=D), 1e-12, 1e-12)
-        cell.close("one-task-cov", o.covariance_matrix, torch.tensor(out["iscov"], dtype=D), 1e-12, 1e-12)
+        sig = SIG_IMT_KL if notlast and core.close(kl, latent_kl.sum(-1), 1e-12, 1e-12)[0] else None
+        cell.same("kl", kl, want_kl, 1e-12, 1e-12, sig)
     res.extend(cell.results)
     return res
 
@@ -813,6 +994,9 @@ def _worker(item):
     return out
 
 
+WRAPPERS = ("LMCVariationalStrategy", "IndependentMultitaskVariationalStrategy")
+
+
 def lattice_cfgs(cells, seed, thorough):
     """seeded configurations for every cell of the lattice TLC enumerated"""
     kernels = ["rbf", "matern25", "matern15"]
@@ -825,20 +1009,33 @@ def lattice_cfgs(cells, seed, thorough):
             base = dict(strat=strat, dist=dist, bz=bz, bp=bp, bx=bx, kernel=kernels[(n + r) % 3], jitter=(None if (n + r) % 2 == 0 else 0.03),
                         seed=seed * 100000 + n * 10 + r)
             if strat == "BatchDecoupledVariationalStrategy":
-                base["variant"] = "split" if (n + r) % 2 else "shared"
+                # TLC's MVInfo: the kernel's batch shape and the position of its mean / variance dimension (0: one shared kernel)
+                mv = c["layout"]["mv"]
+                base.update(variant=("split" if mv else "shared"), mvd=(mv or None), kb=list(c["layout"]["kernel"]))
             if strat == "GridInterpolationVariationalStrategy":
                 base.update(grid_size=7 + (n + r) % 2, grid_bounds=[[-1.0, 1.0]], jitter=None, ls=0.35)
             if strat == "OrthogonallyDecoupledVariationalStrategy":
                 base["base"] = "VariationalStrategy"
-            if strat in ("LMCVariationalStrategy", "IndependentMultitaskVariationalStrategy"):
-                # the batch shapes of the lattice are those in front of the latent / task dimension
-                Q = 2 + (n + r) % 2
-                base.update(Q=Q, T=3, bp=bp + [Q], bz=(bz + [Q] if bz else ([] if (n + r) % 2 else [Q])), bx=(bx + [1] if bx else []),
-                            variant=("batchkernel" if (n + r) % 3 == 0 else "shared"), base=("VariationalStrategy" if (n + r) % 4 else "UnwhitenedVariationalStrategy"))
+            if strat in WRAPPERS:
+                # the batch shapes of the lattice are those in front of the latent / task dimension; TLC's LayoutInfo gives the
+                # parameter batch shape bp + [Q] + post and the dimension argument (VariationalQF.tla "batch layouts")
+                info = c["layout"]
+                Q, pshape, ld = c["lay"]["Q"], list(info["param"]), info["ld"]
+                post = pshape[len(bp) + 1:]
+                tail = [Q] + post
+                rot = n + r
+                T = 2 + (rot // 2) % 2
+                base.update(Q=Q, T=T, bp=pshape, ld=ld, given=info["given"], klshape=list(info["kl"]),
+                            # inducing points: with the pre dimension of the lattice, or shared / one set per latent and post entry
+                            bz=(bz + tail if bz else ([] if rot % 2 else tail)),
+                            # inputs: extra batch dimensions in front, broadcast against the latent and post dimensions or spelled out over the post dimensions
+                            bx=(bx + [1] + ([1] * len(post) if (rot // 2) % 2 == 0 else post) if bx else []),
+                            variant=("batchkernel" if rot % 3 == 0 else "shared"), kb=(tail if rot % 2 else [Q] + [1] * len(post)),
+                            base=("VariationalStrategy" if rot % 4 else "UnwhitenedVariationalStrategy"))
                 cfgs.append(dict(base))
-                # one task per input: documented for outputs whose batch shape is the parameters' batch shape
-                if not bx and not (bz and not bp):
-                    cfgs.append(dict(base, task_indices=[(q + n) % (3 if strat == "LMCVariationalStrategy" else Q) for q in range(4)]))
+                # one task per input: documented for outputs whose batch shape is the parameters' batch shape and a negative dimension argument
+                if not bx and not (bz and not bp) and info["given"] < 0:
+                    cfgs.append(dict(base, task_indices=[(q + n) % (T if strat == "LMCVariationalStrategy" else Q) for q in range(4)]))
                 continue
             cfgs.append(base)
     return cfgs
@@ -852,7 +1049,10 @@ def run(ck):
                "jitter 0..2) x strategy x batch pattern, compared with TLC's exact mean, full covariance and KL pieces; (b) every cell of the strategy x "
                "distribution x batch-shape lattice enumerated by TLC on seeded RBF / Matern models (eval: mean, full covariance, KL; train: mean, variance, KL) "
                "against the closed form on the model's own prior; (c) every training-mode history of TLC's call-protocol machine containing an optimizer step; "
-               "(d) whitened vs unwhitened strategy on the same q(u); (e) LMC / independent multitask wrappers on a stub base against TLC's exact mixtures; "
+               "(d) whitened vs unwhitened strategy on the same q(u); (e) LMC / independent multitask wrappers on a stub base against TLC's exact mixtures, KL sums and "
+               "output shapes for the latent / task dimension at -1, -2, -3 (also as non-negative task_dim) with equal and unequal sizes of the other batch dimensions; in (b) "
+               "the wrappers additionally range over that layout (parameters of batch shape pre + [Q] + post; Q in {2, 3} against a leading dimension of size 2; post sizes "
+               "equal to / different from Q), kernels shared or with a batch shape, inducing points shared or per GP, inputs broadcast or spelled out over the post dimensions; "
                "non-trivial = q(u) differs from the prior or the history contains an optimizer step before an observation (all cases except the q = p instances)")
     ck.assumptions = [
         "jitter is part of the prior the model evaluates to (VariationalQF.tla StratInfo); Kzz + jitter_val I defines p(u) and the whitening and is compared exactly; the "
@@ -866,7 +1066,12 @@ def run(ck):
         "(its docstring gives no formula); BatchDecoupledVariationalStrategy as documented (mean from the mean inducing set, covariance from the variance inducing set)",
         "GridInterpolationVariationalStrategy: q(f) = W q(u) with the strategy's own interpolation matrix W (its weights are C09's subject); at grid nodes W is a selection and the check is independent of W",
         "kl_divergence() in training mode is queried after the forward call of the same step, as the objectives do; one-task-per-input calls of the multitask wrappers only where "
-        "the output batch shape equals the parameter batch shape",
+        "the output batch shape equals the parameter batch shape and the dimension argument is negative (the wrappers reject / document only negative indices there)",
+        "multitask wrappers: kl_divergence() is one value per entry of the batch dimensions OTHER than the latent / task dimension (the sum over the latents / tasks of the "
+        "per-GP KL), for the independent wrapper as for LMC; its batch shape is compared exactly (whitened base: the parameters' batch shape without that dimension; unwhitened "
+        "base: broadcast with the batch dimensions of inducing points, kernel and - in training mode after a call - inputs); a non-negative task_dim is exercised only where "
+        "neither inputs nor inducing points add batch dimensions in front of the parameters' batch shape; num_latents always equals the size of the latent dimension "
+        "(the size-1 'shared parameters' form of LMC is not exercised); task_dim beyond the rank of the batch shape (from_repeated_mvn) is not exercised",
         "float64, 2-3 inducing points (rational) / 3 (seeded), cond(Kzz + jitter) <= 1e4 checked on the oracle side, 1e-7 relative + 1e-9 absolute; CIQ with tightened solver "
         "settings at 2e-6 + 1e-8; optimizer step = torch.optim.SGD.step() on seeded pseudo-gradients for every parameter"]
     wd = os.path.join(tlc.BUILD, PID)
@@ -880,23 +1085,36 @@ def run(ck):
     for q, ch in enumerate(chunks):
         mod, cfg = write_mc(wd, "qf%d" % q, "qf", ch, QF_INV)
         jobs.append(((mod, cfg), dict(name=PID + "/qf%d" % q, dump=True, check=False, workers=1, coverage=False, timeout=1500)))
-    for name, part, insts, inv, kw in (("mix", "mix", mixes, ["MixOK"], {}), ("lattice", "lattice", [], [], {}),
-                                       ("hist", "hist", [], ["ObservesCurrent"], dict(maxhist=L)),
-                                       ("hist_broken", "hist", [], ["ObservesCurrent"], dict(maxhist=L, clear=False))):
+    # the hardest instances for a reduction over the wrong dimension: latent dimension not last, all batch sizes equal (same shape, other numbers)
+    hard = [i for i in mixes if i["ld"] != -1 and len(set(i["shape"])) == 1]
+    if not hard or not any(len(set(i["shape"])) > 1 and i["ld"] != -1 for i in mixes) or not any(i["td"] >= 0 for i in mixes):
+        ck.vacuous("the mixture instances do not cover a latent dimension that is not the last one with equal and with unequal batch sizes")
+    MIXINV = ["MixOK", "MixKLOK"]
+    broken = (("hist_broken", "hist", [], ["ObservesCurrent"], dict(maxhist=L, clear=False)),
+              ("mix_lmc_kl_last", "mix", hard, MIXINV, dict(variant=dict(lmckl="last"))),
+              ("mix_imt_kl_last", "mix", hard, MIXINV, dict(variant=dict(imtkl="last"))),
+              ("mix_imt_mask_from", "mix", hard, MIXINV, dict(variant=dict(imtmask="from"))))
+    for name, part, insts, inv, kw in (("mix", "mix", mixes, MIXINV, {}), ("lattice", "lattice", [], [], {}),
+                                       ("hist", "hist", [], ["ObservesCurrent"], dict(maxhist=L))) + broken:
         mod, cfg = write_mc(wd, name, part, insts, inv, **kw)
-        jobs.append(((mod, cfg), dict(name=PID + "/" + name, dump=(name != "hist_broken"), check=False, workers=2, coverage=False)))
-    rs = tlc.run_many(jobs, parallel=12)
-    labels = ["qf chunk %d (exact rationals: code-shaped = denotation)" % q for q in range(nchunk)] + ["mix (multitask wrappers)", "lattice", "call protocol",
-                                                                                                       "call protocol without the training-mode clear (must be rejected)"]
+        jobs.append(((mod, cfg), dict(name=PID + "/" + name, dump=(name in ("mix", "lattice", "hist")), check=False, workers=2, coverage=False)))
+    rs = tlc.run_many(jobs, parallel=min(12, core.NPROC))
+    blabels = ["call protocol without the training-mode clear (must be rejected)",
+               "mix, LMC kl_divergence summed over the last instead of the latent dimension (must be rejected)",
+               "mix, independent-multitask kl_divergence summed over the last instead of the task dimension (must be rejected)",
+               "mix, independent-multitask task mask permuted with the inverse permutation (must be rejected)"]
+    labels = ["qf chunk %d (exact rationals: code-shaped = denotation)" % q for q in range(nchunk)] + [
+        "mix (multitask wrappers, every position of the latent / task dimension)", "lattice", "call protocol"] + blabels
     for lab, r in zip(labels, rs):
         ck.add_tlc(r, lab)
-    for lab, r in list(zip(labels, rs))[:-1]:
+    for lab, r in list(zip(labels, rs))[:-len(blabels)]:
         if r.violation:
             ck.model_drift("VariationalQF.tla %s violates %s: %s" % (lab, r.violation["name"], str(r.violation["trace"][:1])[:300]))
         elif r.rc != 0:
             raise tlc.TLCError("TLC failed on VariationalQF %s:\n%s" % (lab, r.stdout[-1500:]))
-    if not rs[-1].violation:
-        ck.vacuous("the call-protocol machine without the training-mode cache clear is accepted by TLC")
+    for lab, r, want in zip(blabels, rs[-len(blabels):], ("ObservesCurrent", "MixKLOK", "MixKLOK", "MixOK")):
+        if not r.violation or r.violation["name"] != want:
+            ck.vacuous("%s: TLC did not report a violation of %s" % (lab, want))
     # TLC's exact evaluation, validated against the mirror (a mismatch is a machinery failure)
     outs = {}
     for r in rs[:nchunk]:
@@ -963,12 +1181,20 @@ def run(ck):
     lstates = rs[nchunk + 1].states()
     from checks import c14_models as CM
     for st in lstates:
-        if jsonable(st["out"]) != CM.FACTS.get(st["c"]["strat"]):
+        if jsonable(st["out"]["info"]) != CM.FACTS.get(st["c"]["strat"]):
             raise core.Machinery("the oracle's jitter / coordinate facts for %s differ from StratInfo of VariationalQF.tla" % st["c"]["strat"])
-    cells = [jsonable(st["c"]) for st in lstates]
-    cells.sort(key=lambda c: (c["strat"], c["dist"], c["bz"], c["bp"], c["bx"]))
-    if len(cells) < 200:
+    cells = [dict(jsonable(st["c"]), layout=jsonable(st["out"]["layout"])) for st in lstates]
+    cells.sort(key=lambda c: (c["strat"], c["dist"], c["bz"], c["bp"], c["bx"], c["lay"]["Q"], len(c["lay"]["post"]), c["lay"]["post"], c["lay"]["pos"], -c["mv"]))
+    if len(cells) < 900:
         ck.vacuous("lattice has only %d cells" % len(cells))
+    for mv in (0, -1, -2):
+        if not any(c["strat"] == "BatchDecoupledVariationalStrategy" and c["mv"] == mv for c in cells):
+            ck.vacuous("lattice: no cell of BatchDecoupledVariationalStrategy with mean_var_batch_dim %s" % (mv or None))
+    for w in WRAPPERS:
+        for ld in (-1, -2, -3):
+            for szs in ("eq", "ne"):
+                if not any(c["strat"] == w and c["layout"]["ld"] == ld and (ld == -1 or c["lay"]["post"][0] == szs) for c in cells):
+                    ck.vacuous("lattice: no cell of %s with the latent / task dimension at %d and %s batch sizes" % (w, ld, szs))
     lat = lattice_cfgs(cells, ck.seed, thorough)
     for cfg in lat:
         cases.append(dict(kind="seed", cfg=cfg))
@@ -1002,7 +1228,7 @@ def run(ck):
         if not any(a in h for h in hists):
             ck.vacuous("action %s never taken in the generated histories" % a)
     hists = sorted(hists)
-    hcells = [c for c in cells if not c["bz"] and not c["bp"] and not c["bx"]]
+    hcells = [c for c in cells if not c["bz"] and not c["bp"] and not c["bx"] and not c["lay"]["post"] and not c["lay"]["pos"]]
     n_hist = 0
     for n, c in enumerate(hcells):
         pick = hists if thorough else [h for q, h in enumerate(hists) if h[:5] == must or (q + n) % 9 == 0]
@@ -1020,7 +1246,9 @@ def run(ck):
         "parameters kl_divergence() in evaluation mode (or before the first training-mode call) differs from kl_divergence() in training mode after a call "
         "(e.g. 1.5207 vs 1.5341 with the default jitter, 1.52 vs 1.02 with jitter_val=0.05); accepted here under the per-call-site reading of the jitter (assumption 1)"]
     ck.exhaustive = False          # the discrete dimensions below are enumerated completely, the numeric dimension is sampled
-    ck.extra["exhaustive_parts"] = dict(lattice="all %d valid cells of strategy x distribution x batch shapes in {(), (2,)}^3" % len(cells),
+    ck.extra["exhaustive_parts"] = dict(lattice="all %d valid cells of strategy x distribution x batch shapes in {(), (2,)}^3 x (multitask wrappers) position of the latent / "
+                                                "task dimension in {-1, -2, -3} x sizes of the dimensions behind it {equal to, different from} the number of latents x Q in {2, 3} "
+                                                "against a leading dimension of size 2 x (independent wrapper) negative / non-negative task_dim" % len(cells),
                          histories="all %d training-mode histories of length %d over {Forward, KL, OptStep} that start with a call, contain a step and end with an observation" % (len(hists), L))
     items = [cases[q:q + 6] for q in range(0, len(cases), 6)]
     rnd.shuffle(items)
